@@ -1019,7 +1019,8 @@ class Prover:
         """first failed obligation of a real-backend outcome, or None"""
         for k, (got, want) in out.eq.items():
             try:
-                d, why = num_differs(got, want, nan_equal=k in getattr(out, "same_keys", ()))
+                # looser than the replay tolerance: these inputs are random, not chosen by the solver
+                d, why = num_differs(got, want, rtol=1e-5, atol=1e-7, nan_equal=k in getattr(out, "same_keys", ()))
             except TypeError:
                 continue
             if d:
